@@ -1,33 +1,431 @@
+// h_c53 — harness of property C53 (a read-only open returns what a read-write open would, and
+// changes nothing).
+//
+// Per case: a generated history on a real tsdb.DB (tsdbx) leaves a data directory, taken either
+// after Close or as a copy of the LIVE directory (unclean shutdown).  Copies of it are then
+//   - decoded directly (blocks: meta.json + querier over the block),
+//   - handed to the real Head.Init once per cut-off value (the model's oracle),
+//   - opened read-write (tsdb.Open) and queried,
+//   - opened read-only (tsdb.OpenDBReadOnly, sandbox inside the data directory or in a separate
+//     directory), ONE Querier/ChunkQuerier per session, with the file tree (paths, inode
+//     identity, content hashes) recorded before, while open, and after Close,
+//   - flushed with DBReadOnly.FlushWAL.
+//
+// Everything is written as Gallina terms for corr/CorrC53.v.
 package main
 
 import (
+	"context"
+	"crypto/sha256"
+	"encoding/binary"
 	"fmt"
+	"io"
+	"io/fs"
 	"math"
 	"os"
 	"path/filepath"
+	"sort"
+	"strings"
+	"syscall"
+	"time"
+
+	"github.com/oklog/ulid/v2"
 
 	"github.com/prometheus/prometheus/model/labels"
+	"github.com/prometheus/prometheus/model/value"
+	"github.com/prometheus/prometheus/storage"
 	"github.com/prometheus/prometheus/tsdb"
 	"github.com/prometheus/prometheus/tsdb/chunkenc"
-	"context"
+	"github.com/prometheus/prometheus/tsdb/wlog"
 
+	"verif/harness/internal/gallina"
+	"verif/harness/internal/gen"
 	"verif/harness/internal/tsdbx"
 )
 
+const blockRange = 1000
+
 func lbl(i int) labels.Labels { return labels.FromStrings("a", fmt.Sprintf("s%d", i)) }
 
-func roQuery(dir string, mint, maxt int64) ([]tsdbx.Series, error) {
-	ro, err := tsdb.OpenDBReadOnly(dir, "", nil)
-	if err != nil {
-		return nil, err
+func sidOf(l string) int {
+	var i int
+	if _, err := fmt.Sscanf(l, `{a="s%d"}`, &i); err != nil {
+		panic("unexpected labels " + l)
 	}
-	defer ro.Close()
-	q, err := ro.Querier(mint, maxt)
-	if err != nil {
-		return nil, err
+	return i
+}
+
+func val(s int, t int64) float64 { return float64(int64(s)*10_000_000 + t) }
+
+func code(v float64) int64 {
+	if value.IsStaleNaN(v) {
+		return -999
 	}
-	defer q.Close()
-	ss := q.Select(context.Background(), true, nil, tsdbx.MatchAll("a"))
+	if math.IsNaN(v) || math.IsInf(v, 0) {
+		return -998
+	}
+	return int64(v)
+}
+
+// ---------------------------------------------------------------- histories
+
+type hop struct {
+	Kind string  `json:"k"`
+	S    []int   `json:"s,omitempty"`
+	T    []int64 `json:"t,omitempty"`
+	A    int64   `json:"a,omitempty"`
+	B    int64   `json:"b,omitempty"`
+}
+
+type history struct {
+	N       int   `json:"series"`
+	Window  int64 `json:"ooo_window"`
+	Ops     []hop `json:"ops"`
+	Unclean bool  `json:"unclean"`
+}
+
+func tx(s int, ts ...int64) hop {
+	ss := make([]int, len(ts))
+	for i := range ss {
+		ss[i] = s
+	}
+	return hop{Kind: "tx", S: ss, T: ts}
+}
+
+type runner struct {
+	d   *tsdbx.DB
+	log []string
+}
+
+func (r *runner) apply(o hop) {
+	d := r.d
+	var err error
+	switch o.Kind {
+	case "tx":
+		var reqs []tsdbx.AppendReq
+		for i, t := range o.T {
+			reqs = append(reqs, tsdbx.AppendReq{Labels: lbl(o.S[i]), T: t, V: val(o.S[i], t)})
+		}
+		_, err = d.Tx(reqs, true)
+	case "stale":
+		var reqs []tsdbx.AppendReq
+		for i, t := range o.T {
+			reqs = append(reqs, tsdbx.AppendReq{Labels: lbl(o.S[i]), T: t, V: math.Float64frombits(value.StaleNaN)})
+		}
+		_, err = d.Tx(reqs, true)
+		if err == nil {
+			err = d.DB.CompactStaleHead()
+		}
+	case "compact":
+		err = d.Compact()
+	case "compactooo":
+		err = d.CompactOOOHead()
+	case "selected":
+		var refs []storage.SeriesRef
+		for _, hs := range d.HeadDump() {
+			for _, s := range o.S {
+				if hs.Labels == lbl(s).String() {
+					refs = append(refs, storage.SeriesRef(hs.Ref))
+				}
+			}
+		}
+		err = d.DB.CompactSelectedSeries(refs)
+	case "merge":
+		bs := d.Blocks()
+		if len(bs) >= 2 && !d.Compactable() {
+			i := int(o.A) % len(bs)
+			j := int(o.B) % len(bs)
+			if i != j {
+				err = d.MergeBlocks([]string{bs[i].ULID, bs[j].ULID})
+			}
+		}
+	case "delete":
+		var alts []string
+		for _, s := range o.S {
+			alts = append(alts, fmt.Sprintf("s%d", s))
+		}
+		err = d.Delete(o.A, o.B, labels.MustNewMatcher(labels.MatchRegexp, "a", strings.Join(alts, "|")))
+	case "clean":
+		err = d.DB.CleanTombstones()
+	case "reopen":
+		err = d.Reopen()
+	default:
+		panic("op " + o.Kind)
+	}
+	if err != nil {
+		r.log = append(r.log, o.Kind+": "+err.Error())
+	}
+}
+
+func genHistory(g *gen.Rand) history {
+	h := history{N: 1 + g.Intn(3), Window: g.PickI64(0, 300, 2500, 100000, 100000), Unclean: g.Chance(1, 2)}
+	cur := g.PickI64(-2600, -40, 0, 100, 950)
+	nops := 4 + g.Intn(22)
+	for i := 0; i < nops; i++ {
+		switch k := g.Intn(20); {
+		case k < 10:
+			n := 1 + g.Intn(4)
+			o := hop{Kind: "tx"}
+			for j := 0; j < n; j++ {
+				s := g.Intn(h.N)
+				var t int64
+				if h.Window > 0 && g.Chance(1, 3) {
+					back := g.Range(1, min64(h.Window, 3000))
+					t = cur - back
+				} else {
+					cur += g.PickI64(1, 7, 90, 350, 700, g.Range(1, 1200))
+					t = cur
+				}
+				o.S, o.T = append(o.S, s), append(o.T, t)
+			}
+			h.Ops = append(h.Ops, o)
+		case k < 12:
+			h.Ops = append(h.Ops, hop{Kind: "compact"})
+		case k < 14:
+			h.Ops = append(h.Ops, hop{Kind: "compactooo"})
+		case k < 15:
+			o := hop{Kind: "selected"}
+			for s := 0; s < h.N; s++ {
+				if g.Bool() {
+					o.S = append(o.S, s)
+				}
+			}
+			if len(o.S) > 0 {
+				h.Ops = append(h.Ops, o)
+			}
+		case k < 16:
+			cur++
+			h.Ops = append(h.Ops, hop{Kind: "stale", S: []int{g.Intn(h.N)}, T: []int64{cur}})
+		case k < 17:
+			h.Ops = append(h.Ops, hop{Kind: "merge", A: int64(g.Intn(8)), B: int64(g.Intn(8))})
+		case k < 18:
+			a := cur - g.Range(0, 2500)
+			o := hop{Kind: "delete", A: a, B: a + g.Range(0, 600)}
+			for s := 0; s < h.N; s++ {
+				if g.Bool() || s == 0 {
+					o.S = append(o.S, s)
+				}
+			}
+			h.Ops = append(h.Ops, o)
+		case k < 19:
+			h.Ops = append(h.Ops, hop{Kind: "clean"})
+		default:
+			h.Ops = append(h.Ops, hop{Kind: "reopen"})
+		}
+	}
+	return h
+}
+
+func min64(a, b int64) int64 {
+	if a < b {
+		return a
+	}
+	return b
+}
+
+type fixed struct {
+	Name string
+	H    history
+}
+
+func corpus() []fixed {
+	return []fixed{
+		// the fixed defect (old cut-off rule): an out-of-order block sorts last
+		{"ooo-block-last", history{N: 1, Window: 100000, Ops: []hop{tx(0, 100), tx(0, 200), tx(0, 150), {Kind: "compactooo"}}}},
+		// out-of-order sample in the WBL below the in-order block's MaxTime
+		{"wbl-below-block-maxt", history{N: 1, Window: 100000, Ops: []hop{tx(0, 100), tx(0, 200), tx(0, 1700), tx(0, 1800), {Kind: "compact"}, tx(0, 500)}}},
+		// head compaction, unclean shutdown, two series
+		{"unclean-after-compaction", history{N: 2, Window: 0, Unclean: true, Ops: []hop{tx(0, 100, 400), tx(1, 250), tx(0, 1100), tx(1, 1700), tx(0, 2600), {Kind: "compact"}, tx(1, 2700)}}},
+		// out-of-order data only in the WBL, no block at all
+		{"wbl-only", history{N: 1, Window: 100000, Ops: []hop{tx(0, 100), tx(0, 200), tx(0, 300), tx(0, 150)}}},
+		// a block compacted from selected series
+		{"selected-series-block", history{N: 2, Window: 0, Ops: []hop{tx(0, 100), tx(1, 120), tx(0, 200), tx(1, 220), {Kind: "selected", S: []int{0}}, tx(1, 300)}}},
+		// negative times, unclean, out-of-order and in-order blocks overlapping
+		{"overlap-negative", history{N: 2, Window: 2500, Unclean: true, Ops: []hop{tx(0, -2600), tx(1, -2000), tx(0, -900), tx(0, 300), tx(1, 900), {Kind: "compact"}, tx(1, -500), tx(0, -1200), {Kind: "compactooo"}, tx(0, 1300)}}},
+		// empty directory
+		{"empty", history{N: 1, Window: 0}},
+	}
+}
+
+// ---------------------------------------------------------------- directories
+
+func copyDir(src, dst string) {
+	err := filepath.WalkDir(src, func(p string, d fs.DirEntry, err error) error {
+		if err != nil {
+			return err
+		}
+		rel, _ := filepath.Rel(src, p)
+		if d.IsDir() {
+			return os.MkdirAll(filepath.Join(dst, rel), 0o777)
+		}
+		if rel == "lock" {
+			return nil
+		}
+		in, err := os.Open(p)
+		if err != nil {
+			return err
+		}
+		defer in.Close()
+		out, err := os.Create(filepath.Join(dst, rel))
+		if err != nil {
+			return err
+		}
+		if _, err := io.Copy(out, in); err != nil {
+			out.Close()
+			return err
+		}
+		return out.Close()
+	})
+	if err != nil {
+		panic(err)
+	}
+}
+
+// interner numbers path components; "chunks_head" is 1.
+type interner struct {
+	ids   map[string]int64
+	names []string
+	inos  map[[2]uint64]int64
+}
+
+func newInterner() *interner {
+	return &interner{ids: map[string]int64{"chunks_head": 1}, names: []string{"", "chunks_head"}, inos: map[[2]uint64]int64{}}
+}
+
+func (in *interner) comp(s string) int64 {
+	if id, ok := in.ids[s]; ok {
+		return id
+	}
+	id := int64(len(in.names))
+	in.ids[s] = id
+	in.names = append(in.names, s)
+	return id
+}
+
+func (in *interner) path(rel string) string {
+	var cs []int64
+	for _, c := range strings.Split(filepath.ToSlash(rel), "/") {
+		cs = append(cs, in.comp(c))
+	}
+	return listZ(cs)
+}
+
+type entry struct {
+	Rel  string
+	Node int64 // -1 dir, else inode identity
+	Hash int64
+}
+
+func (in *interner) snapshot(root string) []entry {
+	var out []entry
+	err := filepath.WalkDir(root, func(p string, d fs.DirEntry, err error) error {
+		if err != nil {
+			return err
+		}
+		if p == root {
+			return nil
+		}
+		rel, _ := filepath.Rel(root, p)
+		fi, err := os.Lstat(p)
+		if err != nil {
+			return err
+		}
+		if fi.IsDir() {
+			out = append(out, entry{Rel: rel, Node: -1})
+			return nil
+		}
+		st := fi.Sys().(*syscall.Stat_t)
+		key := [2]uint64{uint64(st.Dev), st.Ino}
+		id, ok := in.inos[key]
+		if !ok {
+			id = int64(len(in.inos))
+			in.inos[key] = id
+		}
+		h := sha256.New()
+		fmt.Fprintf(h, "%o %d\n", fi.Mode(), fi.Size())
+		if fi.Mode().IsRegular() {
+			f, err := os.Open(p)
+			if err != nil {
+				return err
+			}
+			_, err = io.Copy(h, f)
+			f.Close()
+			if err != nil {
+				return err
+			}
+		}
+		sum := h.Sum(nil)
+		out = append(out, entry{Rel: rel, Node: id, Hash: int64(binary.BigEndian.Uint64(sum[:8]) >> 4)})
+		return nil
+	})
+	if err != nil {
+		panic(err)
+	}
+	sort.Slice(out, func(i, j int) bool { return out[i].Rel < out[j].Rel })
+	return out
+}
+
+func (in *interner) gEntries(es []entry) string {
+	items := make([]string, len(es))
+	for i, e := range es {
+		items[i] = fmt.Sprintf("(%s, %s, %s)", in.path(e.Rel), z(e.Node), z(e.Hash))
+	}
+	return gallina.List(items)
+}
+
+// diff returns the entries of b that are not (identically) in a, and those of a not in b.
+func diff(a, b []entry) (added, gone []entry) {
+	ina, inb := map[entry]bool{}, map[entry]bool{}
+	for _, e := range a {
+		ina[e] = true
+	}
+	for _, e := range b {
+		inb[e] = true
+		if !ina[e] {
+			added = append(added, e)
+		}
+	}
+	for _, e := range a {
+		if !inb[e] {
+			gone = append(gone, e)
+		}
+	}
+	return added, gone
+}
+
+// z prints a Z numeral (the case files open Z_scope).
+func z(v int64) string {
+	if v < 0 {
+		return fmt.Sprintf("(%d)", v)
+	}
+	return fmt.Sprintf("%d", v)
+}
+
+func listZ(vs []int64) string {
+	it := make([]string, len(vs))
+	for i, v := range vs {
+		it[i] = z(v)
+	}
+	return gallina.List(it)
+}
+
+func sameEntries(a, b []entry) bool {
+	if len(a) != len(b) {
+		return false
+	}
+	for i := range a {
+		if a[i] != b[i] {
+			return false
+		}
+	}
+	return true
+}
+
+// ---------------------------------------------------------------- decoding
+
+type sdata map[int][]tsdbx.Sample
+
+func collect(ss storage.SeriesSet) ([]tsdbx.Series, error) {
 	var out []tsdbx.Series
 	for ss.Next() {
 		s := ss.At()
@@ -37,68 +435,679 @@ func roQuery(dir string, mint, maxt int64) ([]tsdbx.Series, error) {
 			t, v := it.At()
 			r.Samples = append(r.Samples, tsdbx.Sample{T: t, V: v})
 		}
+		if it.Err() != nil {
+			return nil, it.Err()
+		}
 		out = append(out, r)
 	}
+	sort.SliceStable(out, func(i, j int) bool { return out[i].Labels < out[j].Labels })
 	return out, ss.Err()
 }
 
-func main() {
-	base, _ := os.MkdirTemp("", "c53x")
+func collectChunks(ss storage.ChunkSeriesSet, mint, maxt int64) ([]tsdbx.Series, error) {
+	var out []tsdbx.Series
+	for ss.Next() {
+		s := ss.At()
+		r := tsdbx.Series{Labels: s.Labels().String()}
+		it := s.Iterator(nil)
+		for it.Next() {
+			ci := it.At().Chunk.Iterator(nil)
+			for ci.Next() == chunkenc.ValFloat {
+				t, v := ci.At()
+				r.Samples = append(r.Samples, tsdbx.Sample{T: t, V: v})
+			}
+			if ci.Err() != nil {
+				return nil, ci.Err()
+			}
+		}
+		if it.Err() != nil {
+			return nil, it.Err()
+		}
+		out = append(out, r)
+	}
+	sort.SliceStable(out, func(i, j int) bool { return out[i].Labels < out[j].Labels })
+	return tsdbx.InRange(out, mint, maxt), ss.Err()
+}
+
+type blockInfo struct {
+	ULID       string
+	MinT, MaxT int64
+	Hint       bool
+	Data       []tsdbx.Series
+}
+
+func readBlocks(dir string) []blockInfo {
+	es, err := os.ReadDir(dir)
+	if err != nil {
+		panic(err)
+	}
+	var out []blockInfo
+	for _, e := range es {
+		if _, err := ulid.ParseStrict(e.Name()); err != nil || !e.IsDir() {
+			continue
+		}
+		b, err := tsdb.OpenBlock(nil, filepath.Join(dir, e.Name()), nil, nil)
+		if err != nil {
+			panic(err)
+		}
+		m := b.Meta()
+		q, err := tsdb.NewBlockQuerier(b, math.MinInt64, math.MaxInt64)
+		if err != nil {
+			panic(err)
+		}
+		data, err := collect(q.Select(context.Background(), true, nil, tsdbx.MatchAll("a")))
+		if err != nil {
+			panic(err)
+		}
+		q.Close()
+		b.Close()
+		out = append(out, blockInfo{ULID: e.Name(), MinT: m.MinTime, MaxT: m.MaxTime,
+			Hint: m.Compaction.FromOutOfOrder() || m.Compaction.FromStaleSeries() || m.Compaction.FromSelectedSeries(), Data: data})
+	}
+	return out
+}
+
+func cutoffNew(bs []blockInfo) int64 {
+	m := int64(math.MinInt64)
+	for _, b := range bs {
+		if !b.Hint && b.MaxT > m {
+			m = b.MaxT
+		}
+	}
+	return m
+}
+
+func cutoffOld(bs []blockInfo) int64 {
+	if len(bs) == 0 {
+		return math.MinInt64
+	}
+	s := append([]blockInfo(nil), bs...)
+	sort.SliceStable(s, func(i, j int) bool { return s[i].MinT < s[j].MinT })
+	return s[len(s)-1].MaxT
+}
+
+type headInfo struct {
+	Min, Max, OOMin, OOMax int64
+	IO, OOO                map[int][]int64
+	Err                    string
+}
+
+func covered(ivs [][2]int64, t int64) bool {
+	for _, iv := range ivs {
+		if iv[0] <= t && t <= iv[1] {
+			return true
+		}
+	}
+	return false
+}
+
+// oracle runs the real Head.Init(mv) on a private copy of the directory, with the head options
+// the read-only open uses.
+func oracle(src, scratch string, mv int64) headInfo {
+	dir, err := os.MkdirTemp(scratch, "oracle")
+	if err != nil {
+		panic(err)
+	}
+	defer os.RemoveAll(dir)
+	copyDir(src, dir)
+	w, err := wlog.Open(nil, filepath.Join(dir, "wal"))
+	if err != nil {
+		return headInfo{Err: err.Error()}
+	}
+	var wbl *wlog.WL
+	if _, err := os.Stat(filepath.Join(dir, wlog.WblDirName)); !os.IsNotExist(err) {
+		wbl, err = wlog.Open(nil, filepath.Join(dir, wlog.WblDirName))
+		if err != nil {
+			return headInfo{Err: err.Error()}
+		}
+	}
+	opts := tsdb.DefaultHeadOptions()
+	opts.ChunkDirRoot = dir
+	h, err := tsdb.NewHead(nil, nil, w, wbl, opts, tsdb.NewHeadStats())
+	if err != nil {
+		return headInfo{Err: err.Error()}
+	}
+	defer h.Close()
+	if err := h.Init(mv); err != nil {
+		return headInfo{Err: err.Error()}
+	}
+	hi := headInfo{Min: h.MinTime(), Max: h.MaxTime(), OOMin: h.MinOOOTime(), OOMax: h.MaxOOOTime(), IO: map[int][]int64{}, OOO: map[int][]int64{}}
+	stones := h.VerifTombstones()
+	for _, s := range h.VerifDump() {
+		i := sidOf(s.Labels.String())
+		for _, c := range s.InOrder {
+			for _, x := range c.Samples {
+				if !covered(stones[s.Ref], x.T) {
+					hi.IO[i] = append(hi.IO[i], x.T)
+				}
+			}
+		}
+		for _, c := range s.OOO {
+			for _, x := range c.Samples {
+				if !covered(stones[s.Ref], x.T) {
+					hi.OOO[i] = append(hi.OOO[i], x.T)
+				}
+			}
+		}
+	}
+	return hi
+}
+
+// ---------------------------------------------------------------- Gallina
+
+func gSdataT(m map[int][]int64) string {
+	var ks []int
+	for k := range m {
+		ks = append(ks, k)
+	}
+	sort.Ints(ks)
+	var items []string
+	for _, k := range ks {
+		items = append(items, gallina.Pair(z(int64(k)), listZ(m[k])))
+	}
+	return gallina.List(items)
+}
+
+func gSeriesT(ss []tsdbx.Series) string {
+	m := map[int][]int64{}
+	for _, s := range ss {
+		i := sidOf(s.Labels)
+		for _, x := range s.Samples {
+			m[i] = append(m[i], x.T)
+		}
+	}
+	return gSdataT(m)
+}
+
+// answer with values: list (sid * list (Z*Z)), series in label order (= sid order for < 10 series)
+func gOAnswer(ss []tsdbx.Series) string {
+	var items []string
+	for _, s := range ss {
+		var ps []string
+		for _, x := range s.Samples {
+			ps = append(ps, gallina.Pair(z(x.T), z(code(x.V))))
+		}
+		items = append(items, gallina.Pair(z(int64(sidOf(s.Labels))), gallina.List(ps)))
+	}
+	return gallina.List(items)
+}
+
+func gHead(h headInfo) string {
+	return fmt.Sprintf("(mkH %s %s %s %s %s %s)", z(h.Min), z(h.Max), gSdataT(h.IO), gSdataT(h.OOO), z(h.OOMin), z(h.OOMax))
+}
+
+func gSel(sel []int) string {
+	var zs []int64
+	for _, s := range sel {
+		zs = append(zs, int64(s))
+	}
+	return listZ(zs)
+}
+
+func matcher(sel []int) *labels.Matcher {
+	var alts []string
+	for _, s := range sel {
+		alts = append(alts, fmt.Sprintf("s%d", s))
+	}
+	return labels.MustNewMatcher(labels.MatchRegexp, "a", strings.Join(alts, "|"))
+}
+
+// ---------------------------------------------------------------- one case
+
+type query struct {
+	Mint, Maxt int64
+	Sel        []int
+	Chunk      bool
+	Outside    bool
+}
+
+type caseDesc struct {
+	Shape   string   `json:"shape"`
+	Name    string   `json:"name"`
+	Part    string   `json:"part"` // "sessions" | "flush"
+	History history  `json:"history"`
+	Blocks  []string `json:"blocks"`
+	Cutoff  int64    `json:"cutoff"`
+	CutOld  int64    `json:"cutoff_old"`
+	Queries []query  `json:"queries,omitempty"`
+	Notes   []string `json:"notes,omitempty"`
+}
+
+func seriesEqual(a, b []tsdbx.Series) bool {
+	a, b = nonEmpty(a), nonEmpty(b)
+	if len(a) != len(b) {
+		return false
+	}
+	for i := range a {
+		if a[i].Labels != b[i].Labels || len(a[i].Samples) != len(b[i].Samples) {
+			return false
+		}
+		for j := range a[i].Samples {
+			if a[i].Samples[j].T != b[i].Samples[j].T || code(a[i].Samples[j].V) != code(b[i].Samples[j].V) {
+				return false
+			}
+		}
+	}
+	return true
+}
+
+func nonEmpty(a []tsdbx.Series) []tsdbx.Series {
+	var out []tsdbx.Series
+	for _, s := range a {
+		if len(s.Samples) > 0 {
+			out = append(out, s)
+		}
+	}
+	return out
+}
+
+func runCase(id int, name string, h history, g *gen.Rand, outDir string, nq int, cf *gallina.CaseFile, meta *gallina.Meta) {
+	t0 := time.Now()
+	lap := func(what string) {
+		if os.Getenv("C53_TRACE") != "" {
+			fmt.Fprintf(os.Stderr, "case %d %s %v\n", id, what, time.Since(t0))
+		}
+	}
+	base, err := os.MkdirTemp(outDir, "c53_")
+	if err != nil {
+		panic(err)
+	}
 	defer os.RemoveAll(base)
-	opts := tsdbx.Options{BlockRange: 1000, OOOWindow: 100000, SamplesPerChunk: 1 << 20}
-	tx := func(d *tsdbx.DB, ts ...int64) {
-		var reqs []tsdbx.AppendReq
-		for _, t := range ts {
-			reqs = append(reqs, tsdbx.AppendReq{Labels: lbl(0), T: t, V: float64(t)})
-		}
-		res, err := d.Tx(reqs, true)
-		fmt.Println("tx", ts, res, err)
+	opts := tsdbx.Options{BlockRange: blockRange, OOOWindow: h.Window, SamplesPerChunk: 1 << 20, Overlapping: true}
+
+	// 1. the history
+	live := filepath.Join(base, "live")
+	d, err := tsdbx.Open(live, opts)
+	if err != nil {
+		panic(err)
 	}
-	{
-		dir := filepath.Join(base, "e1")
-		d, err := tsdbx.Open(dir, opts)
-		if err != nil { panic(err) }
-		tx(d, 100); tx(d, 200); tx(d, 150)
-		fmt.Println(d.CompactOOOHead())
-		fmt.Println(d.Blocks())
-		d.DB.Close()
-		r, err := roQuery(dir, math.MinInt64, math.MaxInt64)
-		fmt.Println("E1 ro", r, err)
-		ro, _ := tsdb.OpenDBReadOnly(dir, "", nil)
-		fl := filepath.Join(base, "e1flush")
-		os.MkdirAll(fl, 0o777)
-		fmt.Println("flush", ro.FlushWAL(fl))
-		ro.Close()
-		es, _ := os.ReadDir(fl)
-		for _, e := range es { fmt.Println(" flushed:", e.Name()) }
-		d2, _ := tsdbx.Open(fl, opts)
-		fmt.Println(d2.Blocks())
-		r2, _ := d2.Query(math.MinInt64, math.MaxInt64, tsdbx.MatchAll("a"))
-		fmt.Println("E3 flushed content", r2)
-		d2.DB.Close()
-		d, _ = tsdbx.Open(dir, opts)
-		r, err = d.Query(math.MinInt64, math.MaxInt64, tsdbx.MatchAll("a"))
-		fmt.Println("E1 rw", r, err)
-		d.DB.Close()
+	r := &runner{d: d}
+	for _, o := range h.Ops {
+		r.apply(o)
 	}
-	{
-		dir := filepath.Join(base, "e2")
-		d, err := tsdbx.Open(dir, opts)
-		if err != nil { panic(err) }
-		tx(d, 100); tx(d, 200); tx(d, 1700); tx(d, 1800)
-		fmt.Println(d.Compact())
-		fmt.Println(d.Blocks())
-		tx(d, 500)
-		d.DB.Close()
-		for _, mx := range []int64{900, 999, 1000, 5000} {
-			r, err := roQuery(dir, 0, mx)
-			fmt.Println("E2 ro", mx, r, err)
-		}
-		d, _ = tsdbx.Open(dir, opts)
-		for _, mx := range []int64{900, 999, 1000, 5000} {
-			r, err := d.Query(0, mx, tsdbx.MatchAll("a"))
-			fmt.Println("E2 rw", mx, r, err)
-		}
-		d.DB.Close()
+	master := filepath.Join(base, "master")
+	if h.Unclean {
+		copyDir(live, master)
+		meta.Hit("end:unclean")
 	}
+	if err := r.d.DB.Close(); err != nil {
+		panic(err)
+	}
+	if !h.Unclean {
+		copyDir(live, master)
+		meta.Hit("end:clean")
+	}
+	os.RemoveAll(live)
+	for range r.log {
+		meta.Hit("history-op-error")
+	}
+
+	lap("history")
+	// 2. what is in the directory
+	blocks := readBlocks(master)
+	cNew, cOld := cutoffNew(blocks), cutoffOld(blocks)
+	desc := caseDesc{Name: name, History: h, Cutoff: cNew, CutOld: cOld, Notes: r.log}
+	var gBlocks []string
+	hinted, overlap := 0, false
+	for i, b := range blocks {
+		desc.Blocks = append(desc.Blocks, fmt.Sprintf("%s [%d,%d) hint=%v", b.ULID, b.MinT, b.MaxT, b.Hint))
+		gBlocks = append(gBlocks, fmt.Sprintf("(mkB %s %s %s %s)", z(b.MinT), z(b.MaxT), gallina.Bool(b.Hint), gSeriesT(b.Data)))
+		if b.Hint {
+			hinted++
+		}
+		for _, c := range blocks[:i] {
+			if b.MinT < c.MaxT && c.MinT < b.MaxT {
+				overlap = true
+			}
+		}
+	}
+	scratch := filepath.Join(base, "scratch")
+	os.MkdirAll(scratch, 0o777)
+	table := map[int64]headInfo{cNew: oracle(master, scratch, cNew)}
+	if _, ok := table[cOld]; !ok {
+		table[cOld] = oracle(master, scratch, cOld)
+	}
+	var gTable []string
+	for _, k := range []int64{cNew, cOld} {
+		if k == cOld && cOld == cNew && len(gTable) > 0 {
+			continue
+		}
+		if table[k].Err != "" {
+			meta.Hit("oracle-init-error")
+			desc.Notes = append(desc.Notes, "oracle: "+table[k].Err)
+		}
+		gTable = append(gTable, gallina.Pair(z(k), gHead(table[k])))
+	}
+	lap("blocks+oracle")
+	hN := table[cNew]
+	all := make([]int, h.N)
+	for i := range all {
+		all[i] = i
+	}
+
+	// partition classes
+	switch {
+	case len(blocks) == 0:
+		meta.Hit("blocks:none")
+	case hinted == 0:
+		meta.Hit("blocks:in-order-only")
+	case hinted == len(blocks):
+		meta.Hit("blocks:hinted-only")
+	default:
+		meta.Hit("blocks:mixed")
+	}
+	if overlap {
+		meta.Hit("blocks:overlapping")
+	}
+	if cNew != cOld {
+		meta.Hit("cutoff:old-rule-differs")
+	}
+	if len(hN.OOO) > 0 {
+		meta.Hit("head:ooo-data")
+	}
+	if len(hN.IO) > 0 {
+		meta.Hit("head:in-order-data")
+	}
+
+	// 3. queries
+	var qs []query
+	qs = append(qs, query{Mint: math.MinInt64, Maxt: math.MaxInt64, Sel: all})
+	for len(qs) < nq {
+		var q query
+		q.Chunk = g.Chance(1, 3)
+		q.Outside = g.Bool()
+		q.Sel = all
+		if h.N > 1 && g.Chance(1, 3) {
+			q.Sel = nil
+			for s := 0; s < h.N; s++ {
+				if g.Bool() || (s == h.N-1 && len(q.Sel) == 0) {
+					q.Sel = append(q.Sel, s)
+				}
+			}
+		}
+		pts := []int64{cNew - 1, cNew, cNew + 1, cOld - 1, cOld, hN.Min - 1, hN.Min, hN.Max, hN.OOMin, hN.OOMax, hN.OOMin - 1}
+		var ok []int64
+		for _, p := range pts {
+			if p > math.MinInt64+2 && p < math.MaxInt64-2 {
+				ok = append(ok, p)
+			}
+		}
+		if len(ok) > 0 && g.Chance(2, 3) {
+			q.Maxt = gen.Pick(g, ok)
+		} else {
+			q.Maxt = g.Range(-3000, 6000)
+		}
+		switch g.Intn(3) {
+		case 0:
+			q.Mint = math.MinInt64
+		case 1:
+			q.Mint = q.Maxt - g.Range(0, 3000)
+		default:
+			q.Mint = g.Range(-3000, 3000)
+			if q.Mint > q.Maxt {
+				q.Mint = q.Maxt
+			}
+		}
+		qs = append(qs, q)
+	}
+	desc.Queries = qs
+
+	// 4. read-write open of a copy
+	rwDir := filepath.Join(base, "rw")
+	copyDir(master, rwDir)
+	rw, err := tsdbx.Open(rwDir, opts)
+	if err != nil {
+		panic(fmt.Sprintf("case %d: read-write open: %v", id, err))
+	}
+	_, _, _ = rw.HeadTimes()
+	rwMin, _, rwMV := rw.HeadTimes()
+	rwRes := make([][]tsdbx.Series, len(qs))
+	for i, q := range qs {
+		if q.Chunk {
+			rwRes[i], err = rw.ChunkQuery(q.Mint, q.Maxt, matcher(q.Sel))
+		} else {
+			rwRes[i], err = rw.Query(q.Mint, q.Maxt, matcher(q.Sel))
+		}
+		if err != nil {
+			panic(err)
+		}
+	}
+	for _, l := range rw.Logs() {
+		if strings.Contains(l, "failed") {
+			meta.Hit("rw-open:" + strings.SplitN(l, ": ", 2)[1])
+		}
+	}
+	if err := rw.DB.Close(); err != nil {
+		panic(err)
+	}
+
+	lap("rw")
+	// 5. read-only sessions on another copy; the tree root holds the data directory "ro" and the
+	// directory "sb" for sandboxes outside the data directory
+	root := filepath.Join(base, "tree")
+	roDir := filepath.Join(root, "ro")
+	sbRoot := filepath.Join(root, "sb")
+	copyDir(master, roDir)
+	os.MkdirAll(sbRoot, 0o777)
+	in := newInterner()
+	before := in.snapshot(root)
+	var gSess []string
+	sessFail, belowFail, otherFail := false, false, false
+	for i, q := range qs {
+		sroot := ""
+		if q.Outside {
+			sroot = sbRoot
+			meta.Hit("sandbox:outside")
+		} else {
+			meta.Hit("sandbox:inside")
+		}
+		ro, err := tsdb.OpenDBReadOnly(roDir, sroot, nil)
+		if err != nil {
+			panic(err)
+		}
+		var res []tsdbx.Series
+		var info tsdb.VerifROHead
+		var during []entry
+		if q.Chunk {
+			cq, inf, err := ro.VerifChunkQuerier(q.Mint, q.Maxt)
+			if err != nil {
+				panic(fmt.Sprintf("case %d: read-only chunk querier: %v", id, err))
+			}
+			info = inf
+			res, err = collectChunks(cq.Select(context.Background(), true, nil, matcher(q.Sel)), q.Mint, q.Maxt)
+			if err != nil {
+				panic(err)
+			}
+			during = in.snapshot(root)
+			cq.Close()
+		} else {
+			qq, inf, err := ro.VerifQuerier(q.Mint, q.Maxt)
+			if err != nil {
+				panic(fmt.Sprintf("case %d: read-only querier: %v", id, err))
+			}
+			info = inf
+			res, err = collect(qq.Select(context.Background(), true, nil, matcher(q.Sel)))
+			if err != nil {
+				panic(err)
+			}
+			during = in.snapshot(root)
+			qq.Close()
+		}
+		sb, _ := filepath.Rel(root, ro.VerifSandboxDir())
+		if err := ro.Close(); err != nil {
+			panic(err)
+		}
+		after := in.snapshot(root)
+		if !sameEntries(before, after) {
+			meta.Hit("tree-changed-after-close")
+			otherFail = true
+		}
+		if !seriesEqual(res, rwRes[i]) {
+			sessFail = true
+			if q.Maxt < cNew {
+				belowFail = true
+				meta.Hit("ro!=rw:maxt-below-cutoff")
+			} else {
+				otherFail = true
+				meta.Hit("ro!=rw:other")
+			}
+		}
+		if q.Maxt < cNew {
+			meta.Hit("query:maxt-below-cutoff")
+		} else {
+			meta.Hit("query:wal-loaded")
+		}
+		dNew, dGone := diff(before, during)
+		aNew, aGone := diff(before, after)
+		if len(dGone) > 0 {
+			meta.Hit("tree-changed-while-open")
+			otherFail = true
+		}
+		gSess = append(gSess, fmt.Sprintf("(mkSess %s %s %s %s %s %s %s %s %s %s %s %s)",
+			z(q.Mint), z(q.Maxt), gSel(q.Sel), gOAnswer(res), gOAnswer(rwRes[i]),
+			z(info.MinValidTime), z(info.MinTime), in.path(sb),
+			in.gEntries(dNew), in.gEntries(dGone), in.gEntries(aNew), in.gEntries(aGone)))
+	}
+	_ = sessFail
+	sdesc := desc
+	sdesc.Part = "sessions"
+	sdesc.Shape = "clean"
+	if belowFail && !otherFail {
+		sdesc.Shape = "ro-skips-head-when-blocks-cover-maxt"
+	}
+	dirPath := in.path("ro")
+	cf.Add(fmt.Sprintf("(mkCase %s %s %s %s %s %s %s %s %s false None)",
+		z(int64(2*id)), gallina.List(gBlocks), gallina.List(gTable), gSel(all),
+		z(rwMV), z(rwMin), dirPath, in.gEntries(before), gallina.List(gSess)))
+	meta.Case(2*id, sdesc)
+
+	lap("sessions")
+	// 6. FlushWAL on yet another copy
+	flRoot := filepath.Join(base, "fl")
+	flDir := filepath.Join(flRoot, "ro")
+	flOut := filepath.Join(base, "flout")
+	copyDir(master, flDir)
+	os.MkdirAll(flOut, 0o777)
+	in2 := newInterner()
+	flBefore := in2.snapshot(flRoot)
+	ro, err := tsdb.OpenDBReadOnly(flDir, "", nil)
+	if err != nil {
+		panic(err)
+	}
+	ferr := ro.FlushWAL(flOut)
+	if err := ro.Close(); err != nil {
+		panic(err)
+	}
+	if !sameEntries(flBefore, in2.snapshot(flRoot)) {
+		meta.Hit("observation:flushwal-changed-data-dir")
+	}
+	gFlush := "None"
+	fdesc := desc
+	fdesc.Part = "flush"
+	fdesc.Queries = nil
+	fdesc.Shape = "clean"
+	var flushed []tsdbx.Series
+	if ferr != nil {
+		meta.Hit("flushwal-error")
+		fdesc.Notes = append(fdesc.Notes, "FlushWAL: "+ferr.Error())
+		fdesc.Shape = "flushwal-error"
+	} else {
+		fb := readBlocks(flOut)
+		switch len(fb) {
+		case 0:
+			meta.Hit("flush:no-block")
+		case 1:
+			meta.Hit("flush:block")
+			flushed = fb[0].Data
+			gFlush = fmt.Sprintf("(Some (%s, %s, %s))", z(fb[0].MinT), z(fb[0].MaxT), gSeriesT(fb[0].Data))
+		default:
+			meta.Hit("flush:several-blocks")
+			fdesc.Shape = "flushwal-several-blocks"
+		}
+	}
+	lap("flush")
+	// expected head data, for the shape only (holds decides in Coq)
+	want := map[int]map[int64]bool{}
+	for _, m := range []map[int][]int64{hN.IO, hN.OOO} {
+		for s, ts := range m {
+			for _, t := range ts {
+				if want[s] == nil {
+					want[s] = map[int64]bool{}
+				}
+				want[s][t] = true
+			}
+		}
+	}
+	got := map[int]map[int64]bool{}
+	for _, s := range flushed {
+		for _, x := range s.Samples {
+			i := sidOf(s.Labels)
+			if got[i] == nil {
+				got[i] = map[int64]bool{}
+			}
+			got[i][x.T] = true
+		}
+	}
+	same := len(want) == len(got)
+	for s, ts := range want {
+		if len(got[s]) != len(ts) {
+			same = false
+		}
+		for t := range ts {
+			if !got[s][t] {
+				same = false
+			}
+		}
+	}
+	if !same && fdesc.Shape == "clean" {
+		switch {
+		case cOld != cNew:
+			fdesc.Shape = "flushwal-cutoff-from-last-block"
+		case len(hN.OOO) > 0:
+			fdesc.Shape = "flushwal-omits-out-of-order-head-data"
+		}
+		meta.Hit("flush!=head-data:" + fdesc.Shape)
+	}
+	cf.Add(fmt.Sprintf("(mkCase %s %s %s %s %s %s %s [] [] %s %s)",
+		z(int64(2*id+1)), gallina.List(gBlocks), gallina.List(gTable), gSel(all),
+		z(rwMV), z(rwMin), dirPath, gallina.Bool(ferr == nil), gFlush))
+	meta.Case(2*id+1, fdesc)
+}
+
+func main() {
+	f := gallina.ParseFlags()
+	meta := gallina.NewMeta("C53", f.Seed, f.Tier)
+	cf := &gallina.CaseFile{Dir: f.Out, PerShard: 40,
+		Preamble: "From Coq Require Import List ZArith Bool.\nFrom Verif Require Import lib.Int64 model.ReadOnly corr.CorrC53.\nImport ListNotations.\nOpen Scope Z_scope.\n",
+		Type:     "case", Footer: gallina.StdFooter}
+	nq := 3
+	if f.Tier == "thorough" {
+		nq = 5
+	}
+	id := 0
+	only := -1
+	if s := os.Getenv("C53_ONLY"); s != "" {
+		fmt.Sscanf(s, "%d", &only)
+	}
+	distinct := map[string]bool{}
+	run := func(name string, h history, g *gen.Rand) {
+		if only < 0 || only == id {
+			runCase(id, name, h, g, f.Out, nq, cf, meta)
+			distinct[fmt.Sprintf("%v", h)] = true
+		}
+		id++
+	}
+	for _, c := range corpus() {
+		run(c.Name, c.H, gen.Fork(f.Seed, id))
+	}
+	n := f.Count(30, 700)
+	for i := 0; i < n; i++ {
+		g := gen.Fork(f.Seed, id)
+		run("random", genHistory(g), g)
+	}
+	cf.Flush()
+	meta.Evaluations = 2 * id
+	meta.Nontrivial = len(distinct)
+	meta.Rule = "distinct histories (each gives one sessions case and one FlushWAL case); a history is counted once whatever its queries"
+	meta.Write(f.Out)
 }
